@@ -12,7 +12,7 @@ class UsatT1(Usat):
         imm3 = substring(instr, 14, 12)
         rn = substring(instr, 19, 16)
         sh = bit_at(instr, 21)
-        shift_t, shift_n = decode_imm_shift(sh << 2, chain(imm3, imm2, 2))
+        shift_t, shift_n = decode_imm_shift(sh << 1, chain(imm3, imm2, 2))
         if rd in (13, 15) or rn in (13, 15):
             print('unpredictable')
         else:
